@@ -46,6 +46,14 @@ type lockedBuffer struct {
 
 func (l *lockedBuffer) Write(p []byte) (int, error) { return l.b.Write(p) }
 
+// yieldingLogger gives the processor away on every call, as a logger that writes somewhere does
+type yieldingLogger struct{}
+
+func (yieldingLogger) Debug(string, ...any) { runtime.Gosched() }
+func (yieldingLogger) Info(string, ...any)  { runtime.Gosched() }
+func (yieldingLogger) Warn(string, ...any)  { runtime.Gosched() }
+func (yieldingLogger) Error(string, ...any) { runtime.Gosched() }
+
 func mustURL(s string) *url.URL {
 	u, err := url.Parse(s)
 	if err != nil {
@@ -295,6 +303,69 @@ func main() {
 		}
 		if left := rr.Servers(); len(left) != 0 {
 			fail("Rebalancer: after removing every server through the rebalancer the inner balancer still has %v", left)
+		}
+	}
+
+	// 3d. rebalancer with a failing server, so that weights really shift (moving frozen clock: the meters fill up, the
+	// back-off expires): an administrator keeps re-weighting server b while requests trigger re-weighting passes. From
+	// time to time the traffic is held back; then, after a reset (any upsert), b's weight in the inner balancer must be
+	// exactly the weight the administrator configured last: what a pass did meanwhile is not a configuration.
+	{
+		scenarios++
+		clock.Freeze(time.Date(2024, 5, 1, 0, 0, 0, 0, time.UTC))
+		byHost := http.HandlerFunc(func(w http.ResponseWriter, req *http.Request) {
+			if req.URL.Host == "a:80" {
+				w.WriteHeader(502)
+				return
+			}
+			w.WriteHeader(200)
+		})
+		rr, _ := roundrobin.New(byHost)
+		rb, _ := roundrobin.NewRebalancer(rr, roundrobin.RebalancerBackoff(300*time.Millisecond), // a pass every few requests: weights keep moving
+			roundrobin.RebalancerLogger(yieldingLogger{}))
+		ua, ub, uc := mustURL("http://a:80"), mustURL("http://b:80"), mustURL("http://c:80")
+		_ = rb.UpsertServer(ua)
+		_ = rb.UpsertServer(ub)
+		_ = rb.UpsertServer(uc)
+		var gate sync.RWMutex
+		var shifted int64
+		lastW := 1 // touched by the administrator goroutine only
+		parallel(G, N, func(gi, i int) {
+			clock.Advance(50 * time.Millisecond)
+			if gi == 0 {
+				w := 1 + i%5
+				// wait (a little) until the passes have started to move b's weight away from what was configured last
+				for spin := 0; spin < 3000; spin++ {
+					if cur, _ := rr.ServerWeight(ub); cur != lastW {
+						break
+					}
+					runtime.Gosched()
+				}
+				lastW = w
+				if err := rb.UpsertServer(ub, roundrobin.Weight(w)); err != nil {
+					fail("Rebalancer: UpsertServer(b, Weight(%d)) failed: %v", w, err)
+					return
+				}
+				{
+					gate.Lock()             // no request is in flight and none starts
+					_ = rb.UpsertServer(uc) // a reset: every server is put back to its configured weight
+					if got, _ := rr.ServerWeight(ub); got != w {
+						fail("Rebalancer: UpsertServer(b, Weight(%d)) succeeded; after a reset with no request in flight b's weight is %d: a re-weighting pass that ran during the call was taken for the configuration", w, got)
+					}
+					gate.Unlock()
+				}
+				return
+			}
+			gate.RLock()
+			rb.ServeHTTP(httptest.NewRecorder(), request("10.0.0.3"))
+			if wb, _ := rr.ServerWeight(ub); wb > 5 {
+				atomic.AddInt64(&shifted, 1)
+			}
+			gate.RUnlock()
+		})
+		clock.Unfreeze()
+		if atomic.LoadInt64(&shifted) == 0 && N >= 200 && G >= 4 {
+			fmt.Printf("note: scenario 3d never saw shifted weights\n")
 		}
 	}
 
